@@ -48,6 +48,7 @@ impl SequenceTrackingEntry {
 /// Collisions are handled by storing the actual sequence number and
 /// checking it on lookup. Stale entries are detected by timestamp.
 #[allow(clippy::len_without_is_empty)]
+#[cfg_attr(feature = "verif-hooks", derive(Clone))]
 pub struct SequenceTracker {
     entries: Box<[SequenceTrackingEntry; SEQ_TRACKING_SIZE]>,
     /// Number of valid (non-expired) entries - approximate, for logging only.
